@@ -48,10 +48,10 @@ theorem C14_apply_context (L R : List Line) (n : Nat) (fi : Option FileInfo) :
   ⟨C14a.apply_context_new L R fi (editScript_Valid L R) (C11.editScript_canonical L R),
    C14a.apply_context_pipeline L R n fi (editScript_Valid L R) (C11.editScript_canonical L R)⟩
 
-/-- **C14, unified format** — partial only in the F6 hypothesis (no chunk with an empty side). -/
+/-- **C14, unified format** — partial only in the F6 hypothesis (no chunk with an empty LEFT range). -/
 theorem C14_apply_unified_partial (L R : List Line) (n : Nat) (fi : Option FileInfo) :
     ∃ d1 d2, (Model.Mdiff.new L R).addContext? n = some d1 ∧ d1.unify? = .ok d2 ∧
-      ((∀ c ∈ d2.chunks, c.lstart < c.lend ∧ c.rstart < c.rend) →
+      ((∀ c ∈ d2.chunks, c.lstart < c.lend) →
         DiffApply.applyUnified (unified d2.chunks fi) L = some R) :=
   C14a.apply_unified_pipeline_partial L R n fi (editScript_Valid L R)
 
